@@ -220,11 +220,68 @@ func structuredPointInput(t *rapid.T, gi *GroupInfo, valid []byte) ([]byte, stri
 		}
 		return bigToBytes(v, size, false), kind
 	case gi.Family == "bls-kilic" || gi.Family == "bls-circl" || gi.Family == "bls-gnark":
-		kind := rapid.SampledFrom([]string{"flags", "x>=p", "notinsubgroup", "notinsubgroup", "infinity-variants", "offcurve-x"}).Draw(t, "skind")
+		kind := rapid.SampledFrom([]string{"flags", "x>=p", "notinsubgroup", "notinsubgroup", "infinity-variants", "offcurve-x", "uncompressed", "uncompressed"}).Draw(t, "skind")
 		if gi.Role == 3 {
 			return fieldEdit(modelBLSG1.P, 12, 48, 0)
 		}
+		// a point of the curve that is (almost surely) outside the prime-order subgroup: random x until
+		// x^3+b is a square (compressed encoding)
+		notInSub := func() []byte {
+			if gi.Role == 1 {
+				for i := 0; ; i++ {
+					x := new(big.Int).SetBytes(rapid.SliceOfN(rapid.Byte(), 48, 48).Draw(t, fmt.Sprintf("x%d", i)))
+					x.Mod(x, modelBLSG1.P)
+					if y := fsqrt(modelBLSG1.rhs(x), modelBLSG1.P); y != nil {
+						if rapid.Bool().Draw(t, "ysign") {
+							y = fneg(y, modelBLSG1.P)
+						}
+						return encBLSG1(wPoint{X: x, Y: y})
+					}
+				}
+			}
+			for i := 0; ; i++ {
+				a := new(big.Int).SetBytes(rapid.SliceOfN(rapid.Byte(), 48, 48).Draw(t, fmt.Sprintf("xa%d", i)))
+				b := new(big.Int).SetBytes(rapid.SliceOfN(rapid.Byte(), 48, 48).Draw(t, fmt.Sprintf("xb%d", i)))
+				x := modelBLSG2.F.norm(f2{a, b})
+				if y, ok := modelBLSG2.F.sqrt(modelBLSG2.rhs(x)); ok {
+					if rapid.Bool().Draw(t, "ysign") {
+						y = modelBLSG2.F.neg(y)
+					}
+					return encBLSG2(w2Point{X: x, Y: y})
+				}
+			}
+		}
 		switch kind {
+		case "uncompressed":
+			// the OTHER serialisation the underlying libraries understand: x||y at twice the size
+			// (flag bits clear, or the infinity flag), of a member or of a curve point outside the
+			// subgroup.  A decoder that starts accepting it must apply the same membership tests.
+			inner, ik := valid, "member"
+			if rapid.IntRange(0, 2).Draw(t, "uoff") > 0 {
+				inner, ik = notInSub(), "notinsubgroup"
+			}
+			out := make([]byte, 2*size)
+			if gi.Role == 1 {
+				if pt, ok := decBLSG1(inner); ok && !pt.Inf {
+					copy(out, bigToBytes(pt.X, 48, false))
+					copy(out[48:], bigToBytes(pt.Y, 48, false))
+				} else {
+					out[0] = 0x40
+				}
+			} else {
+				if pt, ok := decBLSG2(inner); ok && !pt.Inf {
+					copy(out, bigToBytes(pt.X.B, 48, false))
+					copy(out[48:], bigToBytes(pt.X.A, 48, false))
+					copy(out[96:], bigToBytes(pt.Y.B, 48, false))
+					copy(out[144:], bigToBytes(pt.Y.A, 48, false))
+				} else {
+					out[0] = 0x40
+				}
+			}
+			if rapid.IntRange(0, 3).Draw(t, "uflag") == 0 {
+				out[0] |= byte(rapid.IntRange(0, 7).Draw(t, "ufl")) << 5
+			}
+			return out, "uncompressed-" + ik
 		case "flags":
 			out := append([]byte(nil), valid...)
 			out[0] = out[0]&0x1f | byte(rapid.IntRange(0, 7).Draw(t, "fl"))<<5
@@ -241,31 +298,7 @@ func structuredPointInput(t *rapid.T, gi *GroupInfo, valid []byte) ([]byte, stri
 			}
 			return out, kind
 		case "notinsubgroup":
-			// a point of the curve that is (almost surely) outside the prime-order subgroup:
-			// random x until x^3+b is a square
-			if gi.Role == 1 {
-				for i := 0; ; i++ {
-					x := new(big.Int).SetBytes(rapid.SliceOfN(rapid.Byte(), 48, 48).Draw(t, fmt.Sprintf("x%d", i)))
-					x.Mod(x, modelBLSG1.P)
-					if y := fsqrt(modelBLSG1.rhs(x), modelBLSG1.P); y != nil {
-						if rapid.Bool().Draw(t, "ysign") {
-							y = fneg(y, modelBLSG1.P)
-						}
-						return encBLSG1(wPoint{X: x, Y: y}), kind
-					}
-				}
-			}
-			for i := 0; ; i++ {
-				a := new(big.Int).SetBytes(rapid.SliceOfN(rapid.Byte(), 48, 48).Draw(t, fmt.Sprintf("xa%d", i)))
-				b := new(big.Int).SetBytes(rapid.SliceOfN(rapid.Byte(), 48, 48).Draw(t, fmt.Sprintf("xb%d", i)))
-				x := modelBLSG2.F.norm(f2{a, b})
-				if y, ok := modelBLSG2.F.sqrt(modelBLSG2.rhs(x)); ok {
-					if rapid.Bool().Draw(t, "ysign") {
-						y = modelBLSG2.F.neg(y)
-					}
-					return encBLSG2(w2Point{X: x, Y: y}), kind
-				}
-			}
+			return notInSub(), kind
 		default:
 			out := append([]byte(nil), valid...)
 			out[size-1] ^= byte(rapid.IntRange(1, 255).Draw(t, "d"))
